@@ -20,3 +20,13 @@ def register_all(reg):
     reg("C04", "netx", "model_checking", "explicit-state search of the real computations over a virtual FIFO network (all interleavings, start orders, random answers; state caching)",
         "Same exploration as C03; at every idle cycle boundary the assignment is checked for 1-optimality by two nested loops over variables and values.",
         NETX_NOTE, "DESIGN.md 3 C04")
+
+    reg("C07", "netx", "model_checking", "explicit-state search of the real computations over a virtual FIFO network (all interleavings, start orders, random answers; state caching)",
+        "Per small instance and stop_cycle k in {1,2,3} every reachable state of the real MGM, MGM2 and DSA computations is visited; no handler may raise and every quiescent state must have all computations finished, first at cycle k.",
+        NETX_NOTE, "DESIGN.md 3 C07")
+    reg("C16", "seqx", "exploration", "bounded-exhaustive input enumeration vs reference model",
+        "All DCOPs over 1-5 (quick; up to 8 thorough, capped) named variables with every multiset of <=3/<=4 unary..n-ary scopes, built 3x3 ways, are turned into hyper-graph, factor graph and ordered graph by the real builders; nodes, constraints, neighbours, links and next/previous are compared with a reference derived from names and scopes.",
+        "n>=6 families are capped at 2-3 constraints; hyper-edge names, ordered-graph node.constraints and neighbors are not compared (the property is silent on them). " + E2_NOTE, "DESIGN.md 3 C16")
+    reg("C28", "seqx", "exploration", "bounded-exhaustive input enumeration vs reference model",
+        "Every shipped algorithm's declared parameters (plus docstring definitions): all subsets of <=2 (quick) / <=3 (thorough) parameters over 20+-value menus, larger subsets over one value per class, each also with an undeclared name and in both supply orders, through check_param_value, prepare_algo_params, build_with_default_param and (as name:value strings) build_algo_def; keys, types, values and defaults compared with a reference prepare; invalid or unknown entries must be rejected.",
+        "Values whose treatment the property leaves open (bool, ' 7 ', 2.5 or '1.5' for an int, bytes) are only type-checked when accepted; duplicate name:value entries are outside the alphabet. " + E2_NOTE, "DESIGN.md 3 C28")
